@@ -233,6 +233,39 @@ func loadRound(repoDir, goarch string, overlay map[string][]byte, round int, exp
 	if len(p.Funcs) == 0 {
 		return nil, infraError{"no functions loaded"}
 	}
+	// a helper every call of which was expanded (normalize*.go) is dead code: it is analysed where it was expanded
+	if len(p.expanded) > 0 {
+		names := map[string]bool{}
+		for _, l := range p.expanded {
+			if i := strings.LastIndex(l, ": "); i >= 0 {
+				names[strings.TrimSuffix(strings.TrimSuffix(l[i+2:], " expanded (statements)"), " expanded")] = true
+			}
+		}
+		used := map[*ssa.Function]bool{}
+		for _, fn := range p.Funcs {
+			for _, b := range fn.Blocks {
+				for _, in := range b.Instrs {
+					for _, op := range in.Operands(nil) {
+						if f, ok := (*op).(*ssa.Function); ok {
+							used[f] = true
+						}
+					}
+				}
+			}
+		}
+		var kept []*ssa.Function
+		for _, fn := range p.Funcs {
+			root := fn
+			for root.Parent() != nil {
+				root = root.Parent()
+			}
+			if names[root.Name()] && !used[root] && root.Object() != nil && !knownOnPinnedTree(root) {
+				continue
+			}
+			kept = append(kept, fn)
+		}
+		p.Funcs = kept
+	}
 	return p, nil
 }
 
